@@ -80,7 +80,12 @@ type varModel struct {
 	// displaced = the assignment overwrote a live mock; fresh = methods mocked since then (only
 	// those are judged: whether the earlier ones survive a foreign assignment is not stated)
 	held      string
-	displaced bool
+	// cancelledBy: the epoch of a builder that mocked and reset the variable (its cancelled mocker, with
+	// its backup, is still cached there); reassigned: the program assigned since. A further Reset of
+	// that builder may or may not write the old backup again — the statement does not say
+	cancelledBy int
+	reassigned  bool
+	displaced   bool
 	partial   bool
 	fresh     map[string]bool
 }
@@ -223,11 +228,19 @@ func run(real bool, ops []Op, vars []string) (fail string, judged, unjudged int)
 				vm.displaced = true
 			} else {
 				initial["X"] = t.Words("X")
+				if vm.cancelledBy == epoch+1 {
+					vm.reassigned = true
+				}
 			}
 		case kReset:
 			for _, v := range vars {
 				vm := model[v]
+				if !vm.mocked && vm.reassigned && vm.cancelledBy == epoch+1 {
+					vm.dirty = true // a repeated Reset after the program's own assignment: not stated
+				}
 				if vm.mocked && vm.owner == epoch {
+					vm.cancelledBy = epoch + 1
+					vm.reassigned = false
 					vm.mocked = false
 					vm.methods = map[string]mockInfo{}
 					if vm.partial || vm.displaced {
